@@ -395,6 +395,15 @@ pub(crate) fn run_s2(rep: &mut Report, tier: Tier) {
     let lim = Limits { max_states: 6_000_000, max_wall_s: if tier == Tier::Quick { 25.0 } else { 420.0 } };
     for (cfg, depth) in plan {
         let name = format!("s2/{}/{}/{}", medium_name(cfg.eth), cfg.ip_mtu, if cfg.core { "core" } else { "full" });
+        // construction (Interface::new, neighbor pre-resolution) is also a call into the stack
+        if let Err(e) = std::panic::catch_unwind(std::panic::AssertUnwindSafe(|| S2::new(&cfg))) {
+            rep.violation(
+                format!("C12/panic/s2/{}", stable_site(&panic_site())),
+                format!("[{}] panic while constructing the interface: {} at {}", name, panic_msg(e), last_panic_loc()),
+                json!({"harness": name, "choices": []}),
+            );
+            continue;
+        }
         let mut samples = vec![];
         let mut found = vec![];
         match bfs::<S2>(&name, &cfg, depth, &lim, &mut found, &mut samples) {
@@ -411,7 +420,11 @@ pub(crate) fn run_s2(rep: &mut Report, tier: Tier) {
                 rep.machinery_errors.push(f.viol.detail.clone());
                 continue;
             }
-            let sig = if f.viol.sig.starts_with("panic/") { format!("C12/tx/{}", f.viol.sig) } else { f.viol.sig.clone() };
+            // core::replay_choices isolates panics raised in apply() and names them "panic/<site>"
+            let sig = match f.viol.sig.strip_prefix("panic/") {
+                Some(site) => format!("C12/panic/s2/{}", stable_site(site)),
+                None => f.viol.sig.clone(),
+            };
             rep.violation(sig, format!("[{} history {}] {}", name, f.replay["events"], f.viol.detail), f.replay.clone());
         }
     }
@@ -433,7 +446,13 @@ pub(crate) fn replay(harness: &str, art: &Value) -> i32 {
     };
     let choices: Vec<u16> = art["replay"]["choices"].as_array().map(|a| a.iter().map(|x| x.as_u64().unwrap_or(0) as u16).collect()).unwrap_or_default();
     // verbose re-execution: print the frames after every event
-    let mut h = S2::new(&cfg);
+    let mut h = match std::panic::catch_unwind(std::panic::AssertUnwindSafe(|| S2::new(&cfg))) {
+        Ok(h) => h,
+        Err(e) => {
+            println!("violation: C12/panic/s2/{} :: panic while constructing the interface: {} at {}", stable_site(&panic_site()), panic_msg(e), last_panic_loc());
+            return 1;
+        }
+    };
     let mut viols = vec![];
     for (i, &c) in choices.iter().enumerate() {
         let en = h.enabled();
